@@ -36,14 +36,29 @@ class Leak(BaseException):
     """A symbolic value reached code that needs a concrete number (harness error)."""
 
 
+_RV_CACHE = {}
+
+
 def rv(c):
-    """exact rational z3 value of a python float"""
+    """z3 rational of a python float.  Floats are read as the decimal literal that denotes them (0.55 -> 11/20, as written in
+    the source) rather than as their binary expansion; constants with more than 12 significant decimals (pi/180, ...) are
+    rounded to a denominator <= 10^12 (relative deviation < 1e-12, far below the tolerance of the concrete replay).  This keeps
+    the coefficients of the polynomial constraints small (binary expansions have 2^52 denominators that multiply up)."""
     if isinstance(c, Fraction):
         return z3.RealVal(str(c))
     c = float(c)
+    r = _RV_CACHE.get(c)
+    if r is not None:
+        return r
     if c == int(c) and abs(c) < 1e15:
-        return z3.RealVal(int(c))
-    return z3.RealVal(str(Fraction(c)))
+        r = z3.RealVal(int(c))
+    else:
+        fr = Fraction(repr(c))
+        if fr.denominator > 10 ** 12:
+            fr = fr.limit_denominator(10 ** 12)
+        r = z3.RealVal(str(fr))
+    _RV_CACHE[c] = r
+    return r
 
 
 class Engine:
@@ -79,7 +94,16 @@ class Engine:
         s = z3.Solver()
         s.set('timeout', self.feas_timeout_ms)
         s.add(self.base + self.pc + self.defs + [cond])
-        return str(s.check()) != 'unsat'
+        import threading
+        wd = threading.Timer(self.feas_timeout_ms / 1000.0 * 2 + 1.0, lambda: z3.main_ctx().interrupt())
+        wd.daemon = True
+        wd.start()
+        try:
+            return str(s.check()) != 'unsat'
+        except z3.Z3Exception:
+            return True
+        finally:
+            wd.cancel()
 
     def decide(self, cond):
         cond = z3.simplify(cond)
@@ -438,7 +462,7 @@ class SV:
             E.signs[b.n.get_id()] = 1  # non-negative and non-zero on this path
         if not b.sym:
             # division by a concrete constant: keep the denominator trivial
-            return SV(t=_toreal(a.num()) * rv(Fraction(1) / Fraction(b.c)), d=a.d, py=a.py and b.py)
+            return SV(t=_toreal(a.num()) * rv(Fraction(1) / Fraction(repr(b.c))), d=a.d, py=a.py and b.py)
         # (an/ad) / (bn/bd) = an*bd / (ad*bn)
         num = _toreal(a.num())
         if b.d is not None:
